@@ -1,8 +1,16 @@
+import os
+
 import torch
+
+# Verification hook (active only when CAYLEYPY_VERIF=1): events observed inside the library.
+VERIF_EVENTS: list = []
 
 
 def isin_via_searchsorted(elements: torch.Tensor, test_elements_sorted: torch.Tensor):
     """Equivalent to torch.isin but faster."""
+    if os.environ.get("CAYLEYPY_VERIF") == "1" and len(test_elements_sorted) > 1:
+        if bool((test_elements_sorted[1:] < test_elements_sorted[:-1]).any()):
+            VERIF_EVENTS.append(("unsorted-haystack", int(len(test_elements_sorted))))
     if len(test_elements_sorted) == 0:
         return torch.zeros_like(elements, dtype=torch.bool)
     ts = torch.searchsorted(test_elements_sorted, elements)
